@@ -950,6 +950,7 @@ func main() {
 			}
 		}
 	})
+	r.Register("consts", func(a []string) string { return sourceConsts() })
 	if *childFlag != "" {
 		a := strings.Fields(*childFlag)
 		n, _ := strconv.Atoi(a[0])
@@ -968,6 +969,7 @@ func main() {
 	if err != nil {
 		panic(err)
 	}
+	r.Do("consts", "now") // source-derived constants against the model's own computation
 	scs := append(corpusScenarios(), generate(r, r.Rand())...)
 	workers := runtime.NumCPU() / 2
 	if workers < 2 {
